@@ -471,6 +471,9 @@ class SyncObj(object):
                 if changeClusterRequest is None or self.__changeCluster(changeClusterRequest):
 
                     self.__raftLog.add(command, idx, term)
+                    if changeClusterRequest is not None:
+                        # Further cluster changes are refused until this one is applied
+                        self.__changeClusterIDx = idx
 
                     if requestNode is None:
                         if callback is not None:
